@@ -5,7 +5,7 @@ import itertools
 from mc import env  # noqa: F401
 from mc import kernel
 from mc.canon import canon
-from mc.report import Violation, HarnessError
+from mc.report import Violation, HarnessError, Lookalike
 from props.displib import Ordered, calibrate
 
 import desper
@@ -32,7 +32,7 @@ ACTIONS = (None, ('remove', 0), ('remove', 1), ('remove', 2), ('add', 0),
            ('drop', 2))
 
 
-class Boom(Exception):
+class Boom(Lookalike):
     """Stands for Quit / SwitchWorld raised from a callback."""
 
 
